@@ -37,6 +37,8 @@ Apply(o, ev) ==
     [] ev.op = "Removed" -> O!ORemoved(o, ev.d, ev.k)
     [] ev.op = "Purged"  -> O!OPurged(o, ev.d, ev.k, ev.ok)
     [] ev.op = "Loaded"  -> O!OLoaded(o, ev.r)
+    [] ev.op = "PurgeCall"   -> O!OPurgeCall(o, Range(ev.ds), ev.k)
+    [] ev.op = "PurgeReturn" -> O!OPurgeReturn(o, Range(ev.ds), ev.k)
     [] ev.op = "Evicted" -> O!OEvicted(o, ev.d, ev.k)
     [] ev.op = "Kill"    -> O!OKill(o)
     [] ev.op = "Stuck"   -> O!OStuck(o, ev.r)
